@@ -254,14 +254,44 @@ fn sampled(rng: &mut Rng) -> Scenario {
 }
 
 /// A run that exceeds the watchdog is re-executed once with 8x the budget: an infinite loop never
-/// finishes at any budget, a merely long run (e.g. a persistent finite glitch that makes the problem
-/// expensive) does. Only the former is a hang.
-fn finishes_with_larger_budget(sc: &Scenario) -> bool {
-    let verdict = with_watchdog_scale(8, || match sc.entry {
-        Entry::High => run_high(sc, false).verdict,
-        Entry::Low => run_low(sc, false).verdict,
+/// finishes at any budget, a merely long run does. When the fault plan contains a *finite* fault
+/// (1e300, glitch) the served function is a legitimate ODE whose cost nobody bounds (one absurd
+/// but finite derivative can throw the state to 1e68, where the problem is astronomically stiff):
+/// there the verdict is "hang" only if the larger budget brings no progress at all in the
+/// independent variable.
+#[derive(PartialEq)]
+enum Retry {
+    Finished,
+    Progressing,
+    Stuck,
+}
+
+fn retry_with_larger_budget(sc: &Scenario, extent_before: f64) -> Retry {
+    let (verdict, st) = with_watchdog_scale(8, || match sc.entry {
+        Entry::High => {
+            let o = run_high(sc, false);
+            (o.verdict, o.st)
+        }
+        Entry::Low => {
+            let o = run_low(sc, false);
+            (o.verdict, o.st)
+        }
     });
-    !matches!(verdict, Verdict::Hang { .. })
+    if !matches!(verdict, Verdict::Hang { .. }) {
+        return Retry::Finished;
+    }
+    let finite_fault = sc.faults.iter().any(|f| !f.kind.non_finite());
+    if finite_fault && extent(sc, &st) > extent_before * (1.0 + 1e-9) {
+        return Retry::Progressing;
+    }
+    Retry::Stuck
+}
+
+/// how far from x0 the integration currently works: the smallest distance from x0 among the 16 most
+/// recent RHS abscissae (a loop stuck at one x, with a fixed or a shrinking step, does not move it)
+fn extent(sc: &Scenario, st: &crate::env::SimState) -> f64 {
+    let n = st.recent_n.min(16) as usize;
+    st.recent_t[..n].iter().fold(f64::INFINITY, |m, t| m.min((t - sc.x0).abs()))
 }
 
 fn check_times_finite(t: &[f64]) -> bool {
@@ -290,6 +320,9 @@ impl Prop for C04 {
     }
     fn exhaustive(&self, _tier: Tier) -> bool {
         true
+    }
+    fn n_enumerated_items(&self, tier: Tier) -> u64 {
+        bases(tier).len() as u64 + 1
     }
     fn expand(&self, item: u64, tier: Tier, seed: u64) -> Vec<Scenario> {
         let bs = bases(tier);
@@ -328,17 +361,15 @@ impl Prop for C04 {
                 }
                 match &o.verdict {
                     Verdict::Panic(msg) => v.push(viol(P, "panic", format!("solve_ivp panicked: {msg}"))),
-                    Verdict::Hang { ticks, site } => {
-                        if finishes_with_larger_budget(sc) {
-                            cov.bump("slow_but_terminating");
-                        } else {
-                            v.push(viol(
-                                P,
-                                "hang",
-                                format!("solve_ivp did not return within {} ticks (8x the watchdog of {ticks}; last tick site {site}, {} S1 crossings)", 8 * (ticks - 1), o.st.ode_calls),
-                            ))
-                        }
-                    }
+                    Verdict::Hang { ticks, site } => match retry_with_larger_budget(sc, extent(sc, &o.st)) {
+                        Retry::Finished => cov.bump("slow_but_terminating"),
+                        Retry::Progressing => cov.bump("finite_fault_long_run_still_progressing"),
+                        Retry::Stuck => v.push(viol(
+                            P,
+                            "hang",
+                            format!("solve_ivp did not return within {} ticks (8x the watchdog of {ticks}; last tick site {site}, {} S1 crossings)", 8 * (ticks - 1), o.st.ode_calls),
+                        )),
+                    },
                     Verdict::Error(_) => cov.bump("outcome.err"),
                     Verdict::Returned => {
                         let s = o.sol.as_ref().unwrap();
@@ -410,17 +441,15 @@ impl Prop for C04 {
                 }
                 match &o.verdict {
                     Verdict::Panic(msg) => v.push(viol(P, "panic", format!("solver panicked: {msg}"))),
-                    Verdict::Hang { ticks, site } => {
-                        if finishes_with_larger_budget(sc) {
-                            cov.bump("slow_but_terminating");
-                        } else {
-                            v.push(viol(
-                                P,
-                                "hang",
-                                format!("solver did not return within {} ticks (8x the watchdog of {ticks}; last tick site {site}, {} S1 crossings)", 8 * (ticks - 1), o.st.ode_calls),
-                            ))
-                        }
-                    }
+                    Verdict::Hang { ticks, site } => match retry_with_larger_budget(sc, extent(sc, &o.st)) {
+                        Retry::Finished => cov.bump("slow_but_terminating"),
+                        Retry::Progressing => cov.bump("finite_fault_long_run_still_progressing"),
+                        Retry::Stuck => v.push(viol(
+                            P,
+                            "hang",
+                            format!("solver did not return within {} ticks (8x the watchdog of {ticks}; last tick site {site}, {} S1 crossings)", 8 * (ticks - 1), o.st.ode_calls),
+                        )),
+                    },
                     Verdict::Error(_) => cov.bump("outcome.err"),
                     Verdict::Returned => {
                         let r = o.res.as_ref().unwrap();
